@@ -12,6 +12,10 @@
 //                                             getOrientationTensors(0) of the family: per system
 //                                             "b|n|normal(3)|direction(3)|tensor(9)" in %La, joined by ';'
 //   schmid <cs> <nf> (<b...> <n...>){nf} <d...> <i>   public getSchmidFactors(d, i): values in %La
+//   dup <cs> <b...> <n...> <k>                adds the family, then its own k-th generated system as a second
+//                                             family: "refused ..." (expected) or "accepted ..."
+//   all <cs> <nf> (<b...> <n...>){nf} <d...>  every accessor with a family index and every overload without
+//                                             index (see below), to be compared with each other and with exact values
 //   ranks <cs> <nf> (<b...> <n...>){nf}       "R <rank()> N <number of systems> r00 r01 ..." where
 //                                             rij = getInteractionMatrixStructure().getRank(g_i, g_j)
 // <cs> in {Cubic, FCC, BCC, HCP}; vectors have 3 indices (4 for HCP).
@@ -148,6 +152,95 @@ namespace {
         r = d.getSchmidFactors(dir, i);
       }
       return "S " + std::to_string(d.getNumberOfSlipSystems(i)) + " " + hexlds(r);
+    }
+    if (op == "dup") {
+      // dup <cs> <b> <n> <k>: the family is added, then system k (modulo the family size) of getSlipSystems(0),
+      // which belongs to the family already declared, is added as a second family: must be refused
+      std::size_t k;
+      if (cs == CrystalStructure::HCP) {
+        vec4d b, n;
+        if (!read(is, b) || !read(is, n) || !(is >> k)) return "bad-op";
+        d.addSlipSystemsFamily(b, n);
+        const auto gs = d.getSlipSystems(0);
+        if (gs.empty()) return "empty";
+        const auto g = gs[k % gs.size()].get<system4d>();
+        try {
+          d.addSlipSystemsFamily(g.burgers, g.plane);
+        } catch (std::exception&) {
+          return "refused " + show(gs[k % gs.size()]) + " families " + std::to_string(d.getNumberOfSlipSystemsFamilies());
+        }
+        return "accepted " + show(gs[k % gs.size()]) + " families " + std::to_string(d.getNumberOfSlipSystemsFamilies());
+      }
+      vec3d b, n;
+      if (!read(is, b) || !read(is, n) || !(is >> k)) return "bad-op";
+      d.addSlipSystemsFamily(b, n);
+      const auto gs = d.getSlipSystems(0);
+      if (gs.empty()) return "empty";
+      const auto g = gs[k % gs.size()].get<system3d>();
+      try {
+        d.addSlipSystemsFamily(g.burgers, g.plane);
+      } catch (std::exception&) {
+        return "refused " + show(gs[k % gs.size()]) + " families " + std::to_string(d.getNumberOfSlipSystemsFamilies());
+      }
+      return "accepted " + show(gs[k % gs.size()]) + " families " + std::to_string(d.getNumberOfSlipSystemsFamilies());
+    }
+    if (op == "all") {
+      // all <cs> <nf> (<b> <n>){nf} <d>: every per-family accessor (index i) and every all-families overload
+      //   "F <nf> T <total> | fam(0) | fam(1) ... # FAM(0) | FAM(1) ..." where fam(i) is rendered through the
+      //   accessors taking the family index and FAM(i) through element i of the overloads without index:
+      //   "<declared b>|<declared n>@<count>@sys;..@normals;..@directions;..@tensors;..@climb;..@schmid,.."
+      if (!families(is, d, cs)) return "bad-op";
+      SlipSystemsDescription::vec dir;
+      if (cs == CrystalStructure::HCP) {
+        vec4d v;
+        if (!read(is, v)) return "bad-op";
+        dir = v;
+      } else {
+        vec3d v;
+        if (!read(is, v)) return "bad-op";
+        dir = v;
+      }
+      auto render = [](const SlipSystemsDescription::system& fam, const std::size_t count,
+                       const std::vector<SlipSystemsDescription::system>& gs,
+                       const std::vector<SlipSystemsDescription::vector>& ns,
+                       const std::vector<SlipSystemsDescription::vector>& ds,
+                       const std::vector<SlipSystemsDescription::tensor>& ts,
+                       const std::vector<SlipSystemsDescription::tensor>& cs_,
+                       const std::vector<long double>& sf) {
+        std::string r = show(fam) + "@" + std::to_string(count) + "@";
+        for (std::size_t i = 0; i != gs.size(); ++i) r += (i ? ";" : "") + show(gs[i]);
+        r += "@";
+        for (std::size_t i = 0; i != ns.size(); ++i) r += (i ? ";" : "") + hexlds(ns[i]);
+        r += "@";
+        for (std::size_t i = 0; i != ds.size(); ++i) r += (i ? ";" : "") + hexlds(ds[i]);
+        r += "@";
+        for (std::size_t i = 0; i != ts.size(); ++i) r += (i ? ";" : "") + hexlds(ts[i]);
+        r += "@";
+        for (std::size_t i = 0; i != cs_.size(); ++i) r += (i ? ";" : "") + hexlds(cs_[i]);
+        r += "@" + hexlds(sf);
+        return r;
+      };
+      const auto nf = d.getNumberOfSlipSystemsFamilies();
+      std::string r = "F " + std::to_string(nf) + " T " + std::to_string(d.getNumberOfSlipSystems());
+      for (std::size_t i = 0; i != nf; ++i) {
+        r += " | " + render(d.getSlipSystemFamily(i), d.getNumberOfSlipSystems(i), d.getSlipSystems(i),
+                            d.getSlipPlaneNormals(i), d.getSlipDirections(i), d.getOrientationTensors(i),
+                            d.getClimbTensors(i), d.getSchmidFactors(dir, i));
+      }
+      r += " #";
+      const auto ags = d.getSlipSystems();
+      const auto ans = d.getSlipPlaneNormals();
+      const auto ads = d.getSlipDirections();
+      const auto ats = d.getOrientationTensors();
+      const auto acs = d.getClimbTensors();
+      const auto asf = d.getSchmidFactors(dir);
+      if (ags.size() != nf || ans.size() != nf || ads.size() != nf || ats.size() != nf || acs.size() != nf ||
+          asf.size() != nf)
+        return r + " size-mismatch";
+      for (std::size_t i = 0; i != nf; ++i) {
+        r += (i ? " | " : " ") + render(d.getSlipSystemFamily(i), ags[i].size(), ags[i], ans[i], ads[i], ats[i], acs[i], asf[i]);
+      }
+      return r;
     }
     if (op == "ranks") {
       if (!families(is, d, cs)) return "bad-op";
